@@ -1548,6 +1548,7 @@ func (r *Resolver) handleTriggerUpdate(trig *trigger, data []byte) {
 	for _, fe := range filterErrors {
 		fe.sub.writeError(r.errorFormatter, fe.ctx, fe.err, fe.response)
 	}
+	verifPoint("trig.spawn", id, uint64(len(filterErrors)))
 
 	var wg sync.WaitGroup
 	for _, sub := range subs {
@@ -1570,10 +1571,12 @@ func (r *Resolver) handleUpdateSubscription(trig *trigger, data []byte, subIdent
 	}
 
 	sub, filterErr := trig.filterSubscription(subIdentifier, data)
+	verifPoint("trig.fanout", id, verifBool(sub != nil))
 
 	if filterErr != nil {
 		filterErr.sub.writeError(r.errorFormatter, filterErr.ctx, filterErr.err, filterErr.response)
 	}
+	verifPoint("trig.spawn", id, verifBool(filterErr != nil))
 
 	if sub != nil && !sub.removed.Load() {
 		r.executeSubscriptionUpdate(sub.ctx, sub, data)
